@@ -51,6 +51,9 @@ package mon
 //
 //	layCase{Text, Engine, Src}   JSON case body used by C17–C20 (others may reuse)
 //	laySha(s) string             short digest for run.Result.Digest
+//	layNearOnlyCases(seed, tier, share, emit)   boards whose root consists ONLY of constant-near shapes (all
+//	    subsets of the 8 constants up to size 3 + random larger sets; leaves/containers/grids/sequence
+//	    diagrams; root board and layers); share=1 all patterns, share=k every k-th (dagre only in quick)
 //	layGenCases(seed, tier, salt, nDagreQuick, nElkQuick, mult, opts func(engine string, i int, r *gen.R) (gen.DiagramOpts, srcLabel string), emit)
 //	    emits nDagre dagre cases + nElk ELK cases (×mult in thorough) of gen.Diagram programs.
 
@@ -547,6 +550,111 @@ func layGenCases(seed int64, tier string, salt int64, nDagre, nElk, mult int, op
 			text := gen.Diagram(q, o)
 			id++
 			emit(run.MkCase(fmt.Sprintf("%s%06d", eng[:1], id), eng+"/"+src, layCase{Text: text, Engine: eng, Src: src}))
+		}
+	}
+}
+
+// ---------------------------------------------------------------- near-only boards
+
+// layNearOnlyText renders a board whose root consists ONLY of constant-near shapes at the given
+// constants. kinds[i] selects the i-th shape: 0 leaf, 1 container with children and a labelled
+// edge, 2 grid, 3 sequence diagram. Always compilable.
+func layNearOnlyText(consts []string, kinds []int, labels bool) string {
+	var sb strings.Builder
+	for i, c := range consts {
+		name := fmt.Sprintf("n%d", i)
+		lbl := ""
+		if labels && i%2 == 0 {
+			lbl = ": " + gen.Quote("near "+c)
+		}
+		switch kinds[i] % 4 {
+		case 0:
+			fmt.Fprintf(&sb, "%s%s {\n  near: %s\n}\n", name, lbl, c)
+		case 1:
+			fmt.Fprintf(&sb, "%s%s {\n  near: %s\n  a -> b: go\n  c: {d}\n}\n", name, lbl, c)
+		case 2:
+			fmt.Fprintf(&sb, "%s%s {\n  near: %s\n  grid-rows: 2\n  x; y; z\n}\n", name, lbl, c)
+		case 3:
+			fmt.Fprintf(&sb, "%s%s {\n  near: %s\n  shape: sequence_diagram\n  p -> q: m\n  q -> p\n}\n", name, lbl, c)
+		}
+	}
+	return sb.String()
+}
+
+// layNearOnlyCases emits the "all root shapes are constant nears" sub-workload (d2near.boundingBox
+// then has nothing but nears to measure): every non-empty subset of the 8 constants of size ≤ 3
+// (92 patterns) plus random larger sets, the shapes being leaves / containers with children and
+// edges / grids / sequence diagrams (kind assignment rotates with the seed), as the root board
+// and as a layer below a near-only or an ordinary root. share = 1: all patterns under dagre and a
+// seed-rotated quarter under ELK in the quick tier (d2near runs after either engine; ELK costs 7×);
+// share = k > 1: every k-th pattern (seed-rotated), dagre only in the quick tier. thorough: all
+// patterns, both engines. Pure function of (seed, tier, share).
+func layNearOnlyCases(seed int64, tier string, share int, emit func(run.Case)) {
+	cs := gen.NearConstants
+	var patterns [][]string
+	n := len(cs)
+	for a := 0; a < n; a++ {
+		patterns = append(patterns, []string{cs[a]})
+	}
+	for a := 0; a < n; a++ {
+		for b := a + 1; b < n; b++ {
+			patterns = append(patterns, []string{cs[a], cs[b]})
+		}
+	}
+	for a := 0; a < n; a++ {
+		for b := a + 1; b < n; b++ {
+			for c := b + 1; c < n; c++ {
+				patterns = append(patterns, []string{cs[a], cs[b], cs[c]})
+			}
+		}
+	}
+	r := gen.New(seed*7919 + 4242)
+	nLarge := 12
+	if tier == "thorough" {
+		nLarge = 200
+	}
+	for i := 0; i < nLarge; i++ {
+		k := r.Range(4, 10) // > 8: constants repeat
+		p := make([]string, k)
+		for j := range p {
+			p[j] = gen.Pick(r, cs)
+		}
+		patterns = append(patterns, p)
+	}
+	div := 1
+	if v, err := strconv.Atoi(os.Getenv("VERIF_LAY_DIV")); err == nil && v > 1 {
+		div = v // development knob, see layGenCases
+	}
+	rot := int(seed%1000+1000) % 1000
+	id := 0
+	for pi, p := range patterns {
+		if share > 1 && tier != "thorough" && (pi+rot)%share != 0 {
+			continue
+		}
+		if div > 1 && (pi+rot)%div != 0 {
+			continue
+		}
+		kinds := make([]int, len(p))
+		for j := range kinds {
+			kinds[j] = pi + j + rot // every pattern meets every kind over 4 consecutive seeds
+		}
+		root := layNearOnlyText(p, kinds, pi%2 == 0)
+		for _, eng := range []string{"dagre", "elk"} {
+			if eng == "elk" && tier != "thorough" && (share > 1 || (pi+rot)%4 != 0) {
+				continue
+			}
+			id++
+			emit(run.MkCase(fmt.Sprintf("n%s%04d", eng[:1], id), eng+"/near-only", layCase{Text: root, Engine: eng, Src: "near-only"}))
+			// the same content as a layer: below a near-only root (even patterns) or an ordinary root
+			if tier == "thorough" || (pi+rot)%3 == 0 {
+				base := "m -> k\n"
+				if pi%2 == 0 {
+					base = layNearOnlyText(p[:1], []int{kinds[0] + 1}, false)
+				}
+				text := base + "layers: {\n  l1: {\n    " + strings.ReplaceAll(strings.TrimSuffix(root, "\n"), "\n", "\n    ") + "\n  }\n}\n"
+				id++
+				emit(run.MkCase(fmt.Sprintf("n%s%04d", eng[:1], id), eng+"/near-only-layer", layCase{Text: text, Engine: eng, Src: "near-only-layer"}))
+			}
 		}
 	}
 }
